@@ -16,7 +16,7 @@ inductive WOp where
   | opCancelReq (id : Nat)
   | opAddCopy (f n : Nat) (has : Has) (wants : Wants)   -- import-like registration of a copy
   | fault (n f : Nat) (c : Option OnDisk)               -- external damage to storage
-  deriving Repr
+  deriving DecidableEq, Repr
 
 namespace World
 
